@@ -350,6 +350,7 @@ func DNSCaching(ttl time.Duration) func(*Attacker) {
 			}
 
 			rng := rand.New(rand.NewSource(time.Now().UnixNano()))
+			var rngMu sync.Mutex // rand.Rand is not safe for concurrent use
 
 			tr.DialContext = func(ctx context.Context, network, addr string) (conn net.Conn, err error) {
 				host, port, err := net.SplitHostPort(addr)
@@ -374,7 +375,9 @@ func DNSCaching(ttl time.Duration) func(*Attacker) {
 				// never alter the cached addresses.
 				ips = append([]string(nil), ips...)
 
+				rngMu.Lock()
 				rng.Shuffle(len(ips), func(i, j int) { ips[i], ips[j] = ips[j], ips[i] })
+				rngMu.Unlock()
 
 				ips = firstOfEachIPFamily(ips)
 
